@@ -249,6 +249,11 @@ func genStreamCase0(t *rapid.T) Case {
 	}
 	o := mpcl.Opts{NumParams: 2, MaxStmts: 6, MaxDepth: 2, Helpers: 1, Arrays: true,
 		Loops: true, ScalarParams: true, MaxWidth: 40, AliasHeavy: rapid.Bool().Draw(t, "alias")}
+	if rapid.IntRange(0, 5).Draw(t, "widetypes") == 0 {
+		// Types up to 130 bits: widening casts by more than 64 bits,
+		// wide constants.
+		o.MaxWidth = 130
+	}
 	p := mpcl.Draw(t, o)
 	vec := mpcl.DrawInputs(t, p, 2)
 	in := vec[rapid.IntRange(0, len(vec)-1).Draw(t, "vec")]
